@@ -150,7 +150,9 @@ CHECKS["C06"] = cfg(
     "C06",
     technique="runtime monitoring: BTreeSet<u32> reference model over bitmap/service/document/validator executions; legacy form built by the harness; zlib block-type classification of every produced stream",
     level_text="Index sets of every shape (boundaries, dense, runs, sparse, all 65536 containers, up to 1e5 elements; stored, fixed and dynamic deflate blocks all observed) are encoded to a service and decoded back through the real code and compared with a set model, in the modern and the harness-built legacy form; revoke/unrevoke batch histories on CoreDocument/IotaDocument must change exactly the batch indices and nothing else in the document; check_status must report Revoked iff member.",
-    min={"quick": {"sets": 2000, "roundtrip_ok": 500, "legacy_ok": 500, "block_stored": 50, "block_fixed": 200, "block_dynamic": 300,
+    min={"quick": {"fault_histories": 150, "fault_ops": 1500, "fault_ops_rejected": 1000, "fault_ops_other_thread": 200, "after_fault_reads_ok": 1000, "after_fault_batches": 100,
+                   "namesake_cases": 120, "namesake_targets_shadowed": 150, "namesake_reads_ok": 1000, "namesake_status_rounds": 600, "namesake_batches": 150,
+                   "sets": 2000, "roundtrip_ok": 500, "legacy_ok": 500, "block_stored": 50, "block_fixed": 200, "block_dynamic": 300,
                    "histories": 200, "batches": 150, "check_status_revoked": 2000, "check_status_not_revoked": 5000, "mismatch_rejected": 1000, "nontrivial": 500},
          "thorough": {"sets": 50000, "roundtrip_ok": 10000, "legacy_ok": 10000, "block_stored": 1000, "block_dynamic": 5000, "histories": 6000, "batches": 5000}},
     assumptions=["endpoints produced by other zlib encoders are outside the statement"],
@@ -160,7 +162,9 @@ CHECKS["C04"] = cfg(
     "C04", exhaustive=True,
     technique="runtime monitoring: entry-model oracle after every document operation (effect, id-uniqueness invariants, JSON round trip, full resolution table), exhaustive op sequences to bounded depth + random walks",
     level_text="All sequences of checked document mutations to depth 3 (quick) / 4 (thorough) over a 48-operation universe from four start documents (empty, built, with dangling references, with path/query id variants), plus long random walks over a larger universe and deserialised start documents, on CoreDocument and IotaDocument. After every step the harness compares the public snapshot with its own entry model: announced effect, refused-means-unchanged, the three id-uniqueness invariants, to_json/from_json identity, and every resolve_method/resolve_service/methods query in every scope against the set of answers the model allows.",
-    min={"quick": {"op_steps": 300000, "distinct_exact": 400000, "state_checks": 20000, "resolve_exact_some": 500000, "insert_method_ok": 10000,
+    min={"quick": {"resolve_method_mut_checks": 10000000, "resolve_other_query_forms": 10000000, "insert_method_ok_custom_data": 3000, "insert_method_ok_builder_made": 8000,
+                   "roundtrip_checks_with_custom_data": 8000,
+                   "op_steps": 300000, "distinct_exact": 400000, "state_checks": 20000, "resolve_exact_some": 500000, "insert_method_ok": 10000,
                    "remove_method_some": 5000, "insert_service_ok": 4000, "attach_true": 8000, "detach_true": 3000, "start_accepted": 2000, "walks": 2000, "nontrivial": 500},
          "thorough": {"op_steps": 10000000, "distinct_exact": 10000000, "state_checks": 500000, "walks": 100000}},
     thorough=[{"flavour": "checked", "shards": 16, "timeout": 3000},
@@ -175,7 +179,10 @@ CHECKS["C09"] = cfg(
     "C09", level="fault_enumeration", exhaustive=True,
     technique="runtime monitoring with fault injection: fault-injecting JwkStorage/KeyIdStorage wrappers, exhaustive enumeration of failing-call subsets per scenario (incl. undo path), before/after observation of document and both stores",
     level_text="For generate_method and purge_method on CoreDocument and IotaDocument every subset of failing storage call occurrences (discovered by dry runs and grown to a fixpoint so that undo-path calls are included) is injected, over every scope/fragment form/target shape (embedded in each relationship, general purpose with each of the 32 reference subsets), both poll orders of the joined deletes; document (methods with scopes, relationship references, services) and both stores are compared as sets before/after: Ok => everything in place and signing works / everything gone; Err other than UndoOperationFailed => observably unchanged. Seeded random generate/purge/attach histories with per-call fault masks on top.",
-    min={"quick": {"generate_ok": 4000, "generate_sign_verified": 4000, "purge_ok": 1000, "generate_err_clean": 4000, "purge_err_clean": 4000,
+    min={"quick": {"purge_target_undigestable": 800, "purge_err_clean:undigestable": 200, "purge_err_clean:halfbacked": 1000, "purge_err_clean:foreign_namesake": 3000,
+                   "purge_ok:foreign_namesake": 500, "generate_err_clean:kidless_nofragment": 60, "generate_ok:kidless_fragment": 60, "generate_ok:store_kid": 100,
+                   "generate_ok:foreign_namesake": 120, "histories_with_foreign_namesakes": 3000,
+                   "generate_ok": 4000, "generate_sign_verified": 4000, "purge_ok": 1000, "generate_err_clean": 4000, "purge_err_clean": 4000,
                    "faults_fired": 8000, "plans_run": 8000, "scenarios": 600, "histories": 20000, "nontrivial": 1500},
          "thorough": {"generate_ok": 250000, "purge_ok": 60000, "faults_fired": 400000, "plans_run": 8500, "histories": 1000000}},
     assumptions=["fault model: an injected fault returns an error WITHOUT performing the call's effect (no rollback protocol can be all-or-nothing against a store that lies)",
